@@ -352,6 +352,7 @@ def gen_case(seed, tier):
             "ignore_trailing": rng.random() < 0.3,
             "one_rr_per_rrset": rng.random() < 0.2,
             "sock_given": rng.random() < 0.3,
+            "low_level": rng.random() < 0.15,
         }
         dels = []
         n = rng.choice([0, 1, 2, 3, 4, 6])
@@ -478,7 +479,7 @@ def expect_udp(case, q_raw, mats, start=0):
             continue
         if isinstance(payload, BaseException):
             return ("exc", {type(payload).__name__}), fired + ["icmp"]
-        if not _source_ok(case, src):
+        if not o.get("low_level") and not _source_ok(case, src):
             if o["ignore_unexpected"]:
                 fired.append("skip_source")
                 continue
@@ -520,6 +521,9 @@ def expect_udp(case, q_raw, mats, start=0):
             if o["ignore_errors"]:
                 fired.append("skip_mismatch:" + k)
                 continue
+            if o.get("low_level"):
+                # receive_udp() itself only checks the response when ignore_errors is set
+                return ("ok", i), fired + ["accept_lowlevel_unchecked:" + k]
             return ("exc", {"BadResponse"}), fired + ["raise_bad_response"]
         return ("ok", i), fired + ["accept:" + k]
     return ("timeout",), fired
@@ -535,6 +539,25 @@ def _run_udp_sync(case, q, mats):
     kw = {}
     if o["sock_given"]:
         kw["sock"] = FakeSocket(af, socket.SOCK_DGRAM)
+    if o.get("low_level"):
+        # the documented low-level pair with destination=None (accept from any source)
+        try:
+            s = FakeSocket(af, socket.SOCK_DGRAM)
+            dest = _src(case["dest"], case["port"])
+            expiration = VT.now + case["timeout"]
+            dns.query.send_udp(s, q, dest, expiration)
+            r, rt, frm = dns.query.receive_udp(
+                s, None, expiration, o["ignore_unexpected"], o["one_rr_per_rrset"], None, b"", o["ignore_trailing"],
+                o["raise_on_truncation"], o["ignore_errors"], q,
+            )
+            r._verif_from = frm
+            return ("ok", r), VT.elapsed(), net
+        except SimDeadlock:
+            return ("hang",), VT.elapsed(), net
+        except SimBusyWait:
+            raise
+        except Exception as e:  # noqa: BLE001
+            return ("exc", type(e).__name__, e), VT.elapsed(), net
     try:
         r = dns.query.udp(
             q, where, timeout=case["timeout"], port=case["port"], ignore_unexpected=o["ignore_unexpected"],
@@ -565,6 +588,18 @@ def _run_udp_async(case, q, mats):
         kw = {}
         if o["sock_given"]:
             kw["sock"] = await backend.make_socket(af, socket.SOCK_DGRAM, 0, None, None)
+        if o.get("low_level"):
+            s = await backend.make_socket(af, socket.SOCK_DGRAM, 0, None, None)
+            async with s:
+                dest = _src(case["dest"], case["port"])
+                expiration = VT.now + case["timeout"]
+                await dns.asyncquery.send_udp(s, q, dest, expiration)
+                r, rt, frm = await dns.asyncquery.receive_udp(
+                    s, None, expiration, o["ignore_unexpected"], o["one_rr_per_rrset"], None, b"", o["ignore_trailing"],
+                    o["raise_on_truncation"], o["ignore_errors"], q,
+                )
+                r._verif_from = frm
+                return r
         return await dns.asyncquery.udp(
             q, where, timeout=case["timeout"], port=case["port"], ignore_unexpected=o["ignore_unexpected"],
             one_rr_per_rrset=o["one_rr_per_rrset"], ignore_trailing=o["ignore_trailing"],
@@ -610,7 +645,13 @@ def _check_udp_outcome(world, case, q, q_raw, mats, want, out, elapsed, res):
                 matches.append(i)
         if not matches:
             raise Violation("C18:returned-not-delivered", f"{tag}: the returned message is not the strict parse of any delivered datagram; arrivals {seq}")
-        good = [i for i in matches if is_response_raw(q_raw, raw_parse(mats[i][1])) and _source_ok(case, mats[i][2]) and mats[i][0] < T]
+        if o.get("low_level"):
+            good = [i for i in matches if mats[i][0] < T and (want == ("ok", i) or is_response_raw(q_raw, raw_parse(mats[i][1])))]
+            frm = getattr(r, "_verif_from", None)
+            if good and frm is not None and not any(tuple(frm) == tuple(mats[i][2]) for i in good):
+                raise Violation("C18:wrong-from-address", f"{tag}: receive_udp reported source {frm}, the datagram came from {[mats[i][2] for i in good]}")
+        else:
+            good = [i for i in matches if is_response_raw(q_raw, raw_parse(mats[i][1])) and _source_ok(case, mats[i][2]) and mats[i][0] < T]
         if not good:
             idx = matches[0]
             t, payload, src, k = mats[idx]
